@@ -34,6 +34,9 @@ class FakeRaw:
 
 class FakeResp:
   def __init__(self, payload, fail_at_block, bad_status, no_length=False):
+    if bad_status:
+      # an HTTP error answer has a body of its own (the error document), with its own content-length
+      payload = b'<html><body>503 Service Unavailable</body></html>' * 3
     self.headers = {} if no_length else {'content-length': str(len(payload))}
     self.raw = FakeRaw(payload, fail_at_block)
     self.bad = bad_status
